@@ -1282,16 +1282,89 @@ class JobCloseHooks(SendHooks):
             self.site('jc:pqdone-only-after-own-channel-file-removed', None, g1(E, '$unl') == 1, 'message moved to pqdone although its channel file was not removed', E)
 
 
+class JobGuardHooks(JobCloseHooks):
+    """job_close(1) over concrete job records: when is the channel file removed, where does the message go"""
+    def __init__(self):
+        super().__init__()
+        self.unl = []
+        self.ins = []
+
+    def site(self, *a, **k):
+        pass
+
+    def on_branch(self, E, cond, truth):
+        pass
+
+    def tracked_global(self, path):
+        return True
+
+    def precise_arith(self, path):
+        return True
+
+    def materialize(self, E, path):
+        if path == 'G:jo':
+            return fs(('&', 'JO[0]'))
+        return TOP
+
+    def prim_now(self, E, x, args):
+        return [Outcome(ret=fs(9000))]
+
+    def prim_unlink(self, E, x, args):
+        role = self.role_of(E, x.args[0])
+        self.unl.append(role)
+        return [Outcome(ret=fs(0), sets={'$unl': fs(1)}), Outcome(ret=fs(-1), sets={'$unl': fs(0)})]
+
+    def prim_prioq_insert(self, E, x, args):
+        q = g1v(args[0])
+        self.ins.append((q[1] if isinstance(q, tuple) else q, g1(E, '$unl'), {k[6:]: g1(E, k) for k in E.store if k.startswith('$stat:')}))
+        return [Outcome(ret=fs(1), sets={'$nins': fs(g1(E, '$nins', 0) + 1)})]
+
+    def on_return(self, E, fn, val):
+        if fn.name == 'job_close':
+            self.ends = getattr(self, 'ends', [])
+            self.ends.append((g1(E, '$nins', 0), g1(E, '$unl'), {k[6:]: g1(E, k) for k in E.store if k.startswith('$stat:')}, g1(E, 'JO[1].refs'), E.trace.list()))
+
+
 def analyse_job_close(db, rep):
     prog = db.program('qmail-send')
     fn = prog.fn('job_close', 'qmail-send.c')
-    H = JobCloseHooks()
-    eng = Engine(db, prog, H)
-    eng.run(fn, {})
-    rep.count_states(eng.states, eng.transitions)
-    if H.counts.get('unlink', 0) < 1 and all(v[0] for v in H.sites.values()):
-        raise AnalysisBroken('job_close: unlink not explored')
-    return H.sites
+    bad = {}
+    n = 0
+    for refs in (1, 2):
+        for eof in (0, 1):
+            for todo in (0, 2):
+                for ch in (0, 1):
+                    H = JobGuardHooks()
+                    eng = Engine(db, prog, H)
+                    fid = eng.frame_id(fn)
+                    eng.run(fn, {'%s::%s' % (fid, fn.params[0]): fs(1), 'JO[1].refs': fs(refs), 'JO[1].id': fs(77), 'JO[1].retry': fs(5555), 'JO[1].channel': fs(ch),
+                                 'JO[1].flaghiteof': fs(eof), 'JO[1].numtodo': fs(todo)})
+                    rep.count_states(eng.states, eng.transitions)
+                    n += 1
+                    may = refs == 1 and eof == 1 and todo == 0
+                    tr0 = H.ends[0][4] if getattr(H, 'ends', None) else []
+                    if H.unl and not may:
+                        bad.setdefault('jc:channel-file-removed-only-when-read-to-EOF-and-nothing-outstanding',
+                                       ('job_close with %d reference(s) left after this one, flaghiteof=%d numtodo=%d removes %s: recipients not yet done (or still being delivered) lose their record' % (refs - 1, eof, todo, H.unl), tr0))
+                    if may and (not H.unl or any(r != ('chan', ch) for r in H.unl)):
+                        bad.setdefault('jc:channel-file-removed-only-when-read-to-EOF-and-nothing-outstanding',
+                                       ('a finished job of channel %d (read to EOF, nothing outstanding) removes %s (documented: its own channel file)' % (ch, H.unl), tr0))
+                    if refs == 2 and (H.ins or H.unl):
+                        bad.setdefault('jc:nothing-happens-while-deliveries-reference-the-job', ('job_close with another delivery still referencing the job inserts %s / removes %s' % ([q for q, _, _ in H.ins], H.unl), tr0))
+                    for nins, unl, stats, refs_after, tr in getattr(H, 'ends', []):
+                        if refs == 1:
+                            more = any(v == 'exists' for v in stats.values())
+                            okend = nins == 1 or (nins == 0 and more and unl == 1)
+                            if not okend:
+                                bad.setdefault('jc:job-ends-in-exactly-one-of-pqdone/pqchan/more-channels', ('job_close with the last reference returns after %d queue insert(s), other-channel-exists=%s' % (nins, more), tr))
+                    for q, unl, stats in H.ins:
+                        if q == 'G:pqdone' and unl != 1:
+                            bad.setdefault('jc:pqdone-only-after-own-channel-file-removed', ('message moved to pqdone although its channel file was not removed', tr0))
+    if n < 16:
+        raise AnalysisBroken('job_close: scenarios not explored')
+    keys = ('jc:channel-file-removed-only-when-read-to-EOF-and-nothing-outstanding', 'jc:nothing-happens-while-deliveries-reference-the-job',
+            'jc:job-ends-in-exactly-one-of-pqdone/pqchan/more-channels', 'jc:pqdone-only-after-own-channel-file-removed')
+    return {k: (k not in bad, 'qmail-send.c:job_close', bad[k][0] if k in bad else '', bad[k][1] if k in bad else []) for k in keys}
 
 
 class JobReinsertHooks(JobCloseHooks):
